@@ -26,7 +26,7 @@ for d in sorted((V / "seeded").iterdir()):
     if not d.is_dir(): continue
     if len(sys.argv) > 1 and not d.name.startswith(sys.argv[1]): continue
     sid = d.name
-    prop0 = sid[2:5] if sid.startswith(("R2", "R3", "R4", "R5", "R6", "R7", "R8")) else sid[:3]
+    prop0 = sid[2:5] if sid.startswith(("R2", "R3", "R4", "R5", "R6", "R7", "R8", "R9")) else sid[:3]
     for prop in [prop0] + EXTRA.get(sid, []):
         jobs.append((sid, prop))
 res = {}
